@@ -273,6 +273,23 @@ if __name__ == "__main__":
             elif a[0] == "--refactor": refac = True; a = a[1:]   # type-aware refactorings (gomutate -refactor): helper extraction, hoisted calls, ...
             else: a = a[1:]
         run_benign(limit, workers, seed, files, tag, structural, refac)
+    elif len(sys.argv) > 1 and sys.argv[1] == "benign-replay":
+        # re-run the current checker on the recorded alarms of a benign run: selftest/sweep.py benign-replay <results.jsonl>
+        CHECKER = os.path.join(tempfile.mkdtemp(prefix="ankosweepbin."), "ankocheck")
+        shutil.copy(os.path.join(VERIF, "bin/ankocheck"), CHECKER)
+        dirs.append(os.path.dirname(CHECKER))
+        rs = [json.loads(l) for l in open(sys.argv[2])]
+        al = [dict(r, status="") for r in rs if r["status"] == "alarm" and r.get("edits")]
+        with concurrent.futures.ThreadPoolExecutor(max_workers=8) as ex:
+            out = list(ex.map(evaluate_benign, al))
+        for d in dirs:
+            shutil.rmtree(d, ignore_errors=True)
+        still = [m for m in out if m["status"] == "alarm"]
+        print(len(al), "recorded alarms,", len(still), "still alarm")
+        for m in still:
+            print(" ALARM", m["file"], m["func"], m["line"], m["kind"], m.get("fired"))
+            for l in m.get("reports", [])[:3]:
+                print("      ", l[:260])
     elif len(sys.argv) > 1 and sys.argv[1] == "benign-report":
         report_benign("_" + sys.argv[2] if len(sys.argv) > 2 else "")
     elif len(sys.argv) > 1 and sys.argv[1] == "recheck":
